@@ -5,49 +5,29 @@ From stdpp Require Import gmap sets.
 From NV Require Import C20_Model TA_Model TA_Proofs TA_Capacity TA_Cap2 TA_Nonempty.
 Open Scope Z_scope.
 
-(* Capacity: for every tree passing tree_wfb2, every history WITHOUT reinstatement (allocate / release / failed
-   allocation / reset, any choice of pool and CPUs the model's transcription of the code accepts) keeps, in every
-   pool, the shared capacity granted in its subtree within 1000 mCPU per CPU left in its shared set.  No guard:
-   since the repair of K2 the allocation itself refuses a slice that would leave a pool below short. *)
-Theorem C03_capacity_without_reinstatement : forall t os s, tree_wfb2 t = true -> forallb no_reserve os = true ->
+(* Capacity: for every tree passing tree_wfb2 and EVERY history -- allocate, release, failed allocation, reset and
+   reinstatement (supply.Reserve), with any choice of pool and CPUs the model's transcription of the code accepts --
+   the shared capacity granted in every pool's subtree stays within 1000 mCPU per CPU left in its shared set.  No
+   guard: since the repairs of K2 an allocation and a reinstatement themselves refuse to take CPUs the pools below
+   need.  (The only side condition: a reinstated grant carries a non-negative portion.) *)
+Theorem C03_capacity : forall t os s, tree_wfb2 t = true -> forallb nonneg_reserve os = true ->
   run t (init t) os = Ok s ->
   forall q, (q < length t)%nat -> granted_sub t (gr_shared s) q <= 1000 * csize (free_shar s q).
 Proof.
   intros t os s Hwf Hnr Hrun.
-  pose proof (run_no_reserve_guarded t os (init t) s (tree_wfb2_sound t Hwf) (J_init t) Hnr Hrun) as Hg.
+  pose proof (run_all_guarded t os (init t) s (tree_wfb2_sound t Hwf) (J_init t) Hnr Hrun) as Hg.
   destruct (reachable_cap t os (init t) s (tree_wfb2_sound t Hwf) (J_init t) Hg) as (_ & HC & _). exact HC.
 Qed.
-Print Assumptions C03_capacity_without_reinstatement.
+Print Assumptions C03_capacity.
 
-(* With reinstatement (supply.Reserve: restart, configuration update) the statement holds for histories in which
-   every reinstated grant passes the guard desc_safeb, which Reserve does not check. *)
-Theorem C03_capacity_partial : forall t os s, tree_wfb2 t = true -> run_g t (init t) os = Ok s ->
-  forall q, (q < length t)%nat -> granted_sub t (gr_shared s) q <= 1000 * csize (free_shar s q).
-Proof.
-  intros t os s Hwf Hrun.
-  destruct (reachable_cap t os (init t) s (tree_wfb2_sound t Hwf) (J_init t) Hrun) as (_ & HC & _). exact HC.
-Qed.
-Print Assumptions C03_capacity_partial.
-
-(* ... and the full-strength statement (Reserve without the guard) is false of the faithful model: reinstating a
-   slicing grant at an inner pool after a shared grant in a child empties the child's shared set below what is
-   granted there, and the child's container is left with an empty cpuset. *)
-Theorem C03_capacity_refuted :
-  tree_wfb2 k2_tree = true /\
-  match run k2_tree (init k2_tree) k2r_ops with
-  | Ok s => (granted_sub k2_tree (gr_shared s) 0 >? 1000 * csize (free_shar s 0)) = true /\
-            bool_decide (told_cpus k2_tree s {| g_pool := 0; g_excl := ∅; g_type := CpuNormal; g_portion := 2500 |} = ∅) = true
-  | Err _ => False end.
-Proof. exact capacity_refuted. Qed.
-Print Assumptions C03_capacity_refuted.
-
-(* the history that used to oversubscribe a pool by ALLOCATION (known finding K2 before its repair) is refused by
-   the model as it is by the code, and goes through with CPUs the other pool can spare *)
-Theorem C03_k2_allocation_refused :
+(* the two histories that used to oversubscribe a pool -- by allocation (K2) and by reinstatement -- are refused by
+   the model as they are by the code, and the first goes through with CPUs the other pool can spare *)
+Theorem C03_k2_histories_refused :
   run k2_tree (init k2_tree) k2_ops = Err (ErrGuard 12) /\
+  run k2_tree (init k2_tree) k2r_ops = Err (ErrGuard 13) /\
   match run k2_tree (init k2_tree) k2_ops_ok with Ok _ => True | Err _ => False end.
-Proof. split; [exact k2_choice_refused|exact k2_other_choice_accepted]. Qed.
-Print Assumptions C03_k2_allocation_refused.
+Proof. split; [exact k2_choice_refused|]. split; [exact k2_reserve_refused|exact k2_other_choice_accepted]. Qed.
+Print Assumptions C03_k2_histories_refused.
 
 (* "... so every CPU-pinned container always has a non-empty allowed CPU set" (proved part): on the same
    guarded histories, a container of the normal CPU class that holds exclusive CPUs or a positive
@@ -58,14 +38,13 @@ Theorem C03_nonempty_cpuset_partial : forall t os s cid g, tree_wfb2 t = true ->
 Proof. exact told_nonempty. Qed.
 Print Assumptions C03_nonempty_cpuset_partial.
 
-(* ... and it is false for zero-request containers: reinstating an exclusive grant (Reserve, after a
-   configuration update) may take the last sharable CPUs of a pool -- its capacity test is not strict,
-   AllocateCPU's is -- and a BestEffort container of that pool is told an empty cpuset (known finding K10;
-   the same state was observed on the implementation). *)
+(* ... and it is still false for zero-request containers: AllocateCPU tests nothing for a request without CPUs, so a
+   BestEffort container can be placed in a pool whose sharable CPUs were all taken exclusively at the pool above while
+   it was empty (known finding K10; the reinstatement variant of it is refused now: k10_reserve_refused). *)
 Theorem C03_nonempty_cpuset_refuted :
-  tree_wfb2 k10_tree = true /\
-  match run_g k10_tree (init k10_tree) k10_ops with
-  | Ok s => bool_decide (told_cpus k10_tree s {| g_pool := 0; g_excl := ∅; g_type := CpuNormal; g_portion := 0 |} = ∅) = true
+  tree_wfb2 k10a_tree = true /\
+  match run_g k10a_tree (init k10a_tree) k10a_ops with
+  | Ok s => bool_decide (told_cpus k10a_tree s {| g_pool := 0; g_excl := ∅; g_type := CpuNormal; g_portion := 0 |} = ∅) = true
   | Err _ => False end.
 Proof. exact nonempty_refuted. Qed.
 Print Assumptions C03_nonempty_cpuset_refuted.
